@@ -12,6 +12,7 @@ use crate::props::c13::{addmod_ref, mulmod_ref, submod_ref};
 use crate::tt::{self, TT};
 use crate::walk::*;
 use rsdd::builder::decision_nnf::{DecisionNNFBuilder, SemanticDecisionNNFBuilder, StandardDecisionNNFBuilder};
+use rsdd::builder::TopDownBuilder;
 use rsdd::builder::sdd::{CompressionSddBuilder, SddBuilder, SemanticSddBuilder};
 use rsdd::builder::BottomUpBuilder;
 use rsdd::constants::primes;
@@ -276,6 +277,30 @@ fn semantic_compile(clauses: &[Clause]) -> Option<(String, String)> {
         };
         if bdd_tt(r, nv) != f {
             return Some(("semantic-topdown".into(), format!("order {:?}: models {:#x}, the CNF {:#x}", order, bdd_tt(r, nv), f)));
+        }
+        // conditioning on the hash-identified builder: every ordered pair of conditionings of the result
+        // and of its negation, back to back on the same builder (the second of a pair meets whatever the
+        // first left behind); each result denotes the restricted function
+        if !crate::core::disabled("semcond") {
+            let m = tt::mask(nv);
+            for (which, p, g) in [("result", r, f), ("negated result", r.neg(), !f & m)] {
+                let lits: Vec<(usize, bool)> = (0..nv).flat_map(|v| [(v, true), (v, false)]).collect();
+                for &(v1, b1) in lits.iter() {
+                    for &(v2, b2) in lits.iter() {
+                        for (v, val) in [(v1, b1), (v2, b2)] {
+                            match guarded(|| b.condition(p, VarLabel::new(v as u64), val)) {
+                                Ok(c) => {
+                                    let want = tt::cofactor(g, v, val, nv);
+                                    if bdd_tt(c, nv) != want {
+                                        return Some(("semantic-topdown-condition".into(), format!("order {:?}: condition({}, x{} = {}) in the pair ((x{}, {}), (x{}, {})) denotes {:#x}, the restricted function is {:#x}", order, which, v + 1, val, v1 + 1, b1, v2 + 1, b2, bdd_tt(c, nv), want)));
+                                    }
+                                }
+                                Err(e) => return Some(("semantic-topdown-panic".into(), format!("order {:?}: condition({}, x{} = {}) panicked: {}", order, which, v + 1, val, e))),
+                            }
+                        }
+                    }
+                }
+            }
         }
     }
     None
